@@ -29,6 +29,16 @@ claim("C05",
       "All compositions wrapper^d ∘ statement-form ∘ expression-context^e ∘ failing-atom (10 wrappers, 12 statement forms, 35 expression contexts, 9 atoms; d<=1/2, e<=2) rendered on the real code with recording helpers; whenever the failing site was reached the render must fail with empty output and errors.Is(sentinel); unknown identifiers are tolerated exactly in the listed direct positions. Whether an error survives depends on every evaluator frame between the failure and the top, so every frame pair is enumerated.",
       EXEC_NOTE, "bounded exhaustive enumeration of program contexts with fault-injecting helpers on the real evaluator", "DESIGN.md §4 C05")
 
+claim("C06",
+      "Every expression tree of depth <=2 over a 13-value literal/variable pool and all 13 binary operators plus '!' (all operator pairs x all operand triples for the two 3-leaf shapes, all operator triples over a reduced pool for the 4-leaf shape, negation variants) is printed with minimal parentheses under the stated precedence table, with full parentheses and with recording operands, rendered on the real code and compared with a reference evaluator written in Go; short-circuiting is observed through the recording operands. Wrong precedence/associativity/operator tables show only on specific operator pairs and operand values, so the pair space is enumerated completely.",
+      EXEC_NOTE + " Unspecified coercions (bool op non-bool, string compared with non-string, bool+bool) are checked for totality only.", "bounded exhaustive enumeration of expression trees on the real parser+evaluator vs. a reference evaluator", "DESIGN.md §4 C06")
+claim("C07",
+      "Complete matrix of 75 subjects (all value kinds incl. nil pointer, empty HTML, unknown identifier, literals, field/index/call results) x 14 syntactic contexts against the statement's truth table, and every if/else-if/else chain with up to 3 else-ifs over 6 condition values through a counting helper, in 4 placements and 2 block styles: first truthy block rendered, conditions 0..j evaluated exactly once. Uniformity is a relation between contexts, so the whole kind x context matrix is explored.",
+      EXEC_NOTE, "bounded exhaustive enumeration (kind x context matrix, all chain truth assignments) on the real evaluator", "DESIGN.md §4 C07")
+claim("C08",
+      "All loops over 16 iterable kinds at every length 0..3/4 with every body sequence of <=3/4 statements from 16 items (emits, conditional/bare break and continue, emit-then-break, return, let, inner loops with their own control flow, fn literal), 2 tag layouts, 4 placements, compared with a reference interpreter; maps are checked order-independently and additionally under every forced rotation of Go's map iteration order (runtime overlay hook); control-free bodies by unrolling. nil / non-iterable operands and break/continue at nesting depth 1..4.",
+      EXEC_NOTE + " Map iteration order is controlled through an overlay of runtime/map.go (go1.23).", "bounded exhaustive enumeration of loop programs on the real code vs. a reference interpreter; environment-answer enumeration for map order", "DESIGN.md §4 C08")
+
 def main():
     repo_head = subprocess.run(["git", "-C", "/repo", "log", "--format=%H %s"], capture_output=True, text=True).stdout.strip().split("\n")
     hook_commits = [l.split()[0] for l in repo_head if " verif:" in l]
